@@ -262,6 +262,8 @@ class CIPDriver:
     def _list_identity(self):
         request = ListIdentityRequestPacket()
         response = self.send(request)
+        if not response:  # e.g. a non-zero encapsulation status
+            raise ResponseError(f"ListIdentity failed - {response.error}")
         return response.identity
 
     def get_module_info(self, slot: int) -> dict:
